@@ -3,7 +3,7 @@ package asm
 // Witness-search harness for property C11 through the parser (go test -overlay): the
 // token the encoders of internal/enc print for a name is read back by the library's
 // own parser as that very name -- never as an unnamed ID, never as another name --
-// for global, comdat, label and local (parameter) identifiers, and printing the
+// for global, comdat, label, parameter and instruction identifiers (definition and use), and printing the
 // parsed module spells the same tokens again.
 
 import (
@@ -14,6 +14,7 @@ import (
 	"testing"
 
 	"github.com/llir/llvm/internal/enc"
+	"github.com/llir/llvm/ir"
 )
 
 func TestVerifC11Asm(t *testing.T) {
@@ -49,7 +50,7 @@ func TestVerifC11Asm(t *testing.T) {
 			}
 		}()
 		g, c, l, p := enc.GlobalName(n), enc.ComdatName(n), enc.LabelName(n), enc.LocalName(n)
-		src := fmt.Sprintf("%s = comdat any\n%s = global i32 0, comdat(%s)\ndefine void @verif_f() {\n%s\n\tret void\n}\ndefine void @verif_g(i32 %s) {\n\tret void\n}\n", c, g, c, l, p)
+		src := fmt.Sprintf("%s = comdat any\n%s = global i32 0, comdat(%s)\ndefine void @verif_f() {\n%s\n\tret void\n}\ndefine void @verif_g(i32 %s) {\n\tret void\n}\ndefine i32 @verif_h() {\n\t%s = add i32 1, 2\n\tret i32 %s\n}\n", c, g, c, l, p, p, p)
 		src2 := ""
 		for round, text := range []string{src, ""} {
 			if round == 1 {
@@ -60,7 +61,7 @@ func TestVerifC11Asm(t *testing.T) {
 				fail("name %q (round %d): printed tokens %s %s %s %s do not parse: %v", n, round, g, c, l, p, err)
 				return
 			}
-			if len(m.Globals) != 1 || len(m.ComdatDefs) != 1 || len(m.Funcs) != 2 || len(m.Funcs[0].Blocks) != 1 || len(m.Funcs[1].Params) != 1 {
+			if len(m.Globals) != 1 || len(m.ComdatDefs) != 1 || len(m.Funcs) != 3 || len(m.Funcs[0].Blocks) != 1 || len(m.Funcs[1].Params) != 1 {
 				fail("name %q (round %d): unexpected module shape", n, round)
 				return
 			}
@@ -78,6 +79,13 @@ func TestVerifC11Asm(t *testing.T) {
 			}
 			if x := m.Funcs[1].Params[0]; x.LocalName != n || x.IsUnnamed() {
 				fail("local name %q printed as %s is read back as name %q id %d (round %d)", n, p, x.LocalName, x.LocalID, round)
+			}
+			if f := m.Funcs[2]; len(f.Blocks) != 1 || len(f.Blocks[0].Insts) != 1 {
+				fail("name %q (round %d): unexpected shape of @verif_h", n, round)
+			} else if x, ok := f.Blocks[0].Insts[0].(*ir.InstAdd); !ok || x.LocalName != n || x.IsUnnamed() {
+				fail("instruction name %q printed as %s is not read back as that name (round %d)", n, p, round)
+			} else if r, ok := f.Blocks[0].Term.(*ir.TermRet); !ok || r.X != x {
+				fail("use of instruction %s (name %q) is not bound to the instruction (round %d)", p, n, round)
 			}
 			// round 0: the module the library prints (comdat shorthand and all) is parsed again in round 1
 			src2 = m.String()
